@@ -21,7 +21,126 @@ struct Dg {
     must: bool,
 }
 
+/// Builds with several reassembly slots (the wide variant): the fragments of two or three datagrams arrive
+/// interleaved, each datagram's own fragments in order or reversed, complete and without duplicates - as many
+/// datagrams at a time as there are slots at most.  Every one of them must be delivered exactly, once.
+fn run_interleaved(tape: &mut Tape, props: Props, trace_on: bool, slots: usize) -> Outcome {
+    let cfg = NodeCfg::basic('V', Medium::Ip, 1500, 1, false);
+    let mut node = build_node(&cfg);
+    let mut s = udp::Socket::new(udp::PacketBuffer::new(vec![udp::PacketMetadata::EMPTY; 16], vec![0u8; 32768]), udp::PacketBuffer::new(vec![udp::PacketMetadata::EMPTY; 1], vec![0u8; 64]));
+    s.bind(7000).unwrap();
+    let h = node.sockets.add(s);
+    let v = IpAddr::V4([10, 0, 0, 1]);
+    let on = props.has("C12");
+    let mut stats = Stats::default();
+    let mut hash = LogHash::new();
+    let mut trace: Vec<String> = vec![];
+    let mut now: i64 = 1_000_000;
+    let mut events = 0u64;
+    let mut result: Result<(), Violation> = Ok(());
+    let rounds = tape.range(1, 5);
+    let mut serial = 0u16;
+    'outer: for _ in 0..rounds {
+        let n = 2 + tape.draw((slots.min(3) - 1) as u64) as usize;
+        let mut dgs: Vec<(Vec<u8>, Vec<Vec<u8>>, u16)> = vec![];
+        for _ in 0..n {
+            serial += 1;
+            let src = IpAddr::V4([10, 0, 0, 2 + (tape.draw(2) as u8)]);
+            let len = tape.range(60, 900) as usize;
+            let key = tape.draw(1 << 30);
+            let payload: Vec<u8> = (0..len).map(|j| (mix64(key, j as u64 / 8) >> ((j % 8) * 8)) as u8).collect();
+            let sport = 4000 + serial;
+            let l4 = enc_udp(&src, &v, sport, 7000, &payload);
+            let fsz = 8 * tape.range(2, 2 + (l4.len() as u64 / 24).min(40)) as usize;
+            let mut frags = vec![];
+            let mut off = 0;
+            while off < l4.len() {
+                let end = (off + fsz).min(l4.len());
+                let o = V4Opts { ident: 0x5000 + serial, df: false, mf: end < l4.len(), frag_off: off, tos: 0 };
+                frags.push(enc_ipv4(src.v4(), v.v4(), P_UDP, 64, &o, &l4[off..end]));
+                off = end;
+            }
+            if tape.draw(3) == 0 {
+                frags.reverse();
+            }
+            dgs.push((payload, frags, sport));
+        }
+        stats.add("reasm.datagrams-sent", n as u64);
+        stats.inc("reasm.interleaved-rounds");
+        // interleave, keeping each datagram's own order
+        let mut cursors = vec![0usize; n];
+        let mut delivered = vec![0u32; n];
+        loop {
+            let open: Vec<usize> = (0..n).filter(|&i| cursors[i] < dgs[i].1.len()).collect();
+            if open.is_empty() {
+                break;
+            }
+            let i = open[tape.draw(open.len() as u64) as usize];
+            let f = dgs[i].1[cursors[i]].clone();
+            cursors[i] += 1;
+            now += tape.range(1, 200_000) as i64;
+            events += 1;
+            hash.u64(now as u64);
+            hash.bytes(&f);
+            node.dev.rx.push_back(f);
+            stats.inc("frag.rx-fragments");
+            if let Err(e) = node.poll_ingress_single(now) {
+                result = Err(e);
+                break 'outer;
+            }
+            if trace_on && trace.len() < 2000 {
+                trace.push(format!("t={:>12.6}s fragment {} of datagram with source port {}", now as f64 / 1e6, cursors[i], dgs[i].2));
+            }
+            loop {
+                let so = node.sockets.get_mut::<udp::Socket>(h);
+                let got = match guard("udp::recv", || so.recv().ok().map(|(b, m)| (b.to_vec(), m))) {
+                    Ok(g) => g,
+                    Err(e) => {
+                        result = Err(e);
+                        break 'outer;
+                    }
+                };
+                let Some((data, meta)) = got else { break };
+                stats.inc("reasm.delivered");
+                match (0..n).find(|&j| dgs[j].2 == meta.endpoint.port && dgs[j].0 == data) {
+                    Some(j) => delivered[j] += 1,
+                    None => {
+                        if on {
+                            result = Err(viol("C12", "reassembly", "C12.rx/reassembled-datagram-is-none-of-the-datagrams-sent", format!("interleaved arrival: the socket received {} octets from port {} that equal none of the datagrams in flight", data.len(), meta.endpoint.port)));
+                            break 'outer;
+                        }
+                    }
+                }
+            }
+        }
+        stats.add("reasm.must-deliver-claims", n as u64);
+        if on {
+            if let Some(j) = (0..n).find(|&j| delivered[j] != 1) {
+                result = Err(viol(
+                    "C12",
+                    "reassembly",
+                    "C12.must-deliver/interleaved-datagrams",
+                    format!("{} datagrams arrived interleaved ({} reassembly slots), each complete, without duplicates and with its own fragments in order or reversed; the one from port {} ({} octets, {} fragments) was delivered {} times", n, slots, dgs[j].2, dgs[j].0.len(), dgs[j].1.len(), delivered[j]),
+                ));
+                break 'outer;
+            }
+        }
+        now += *tape.pick(&[1_000i64, 500_000, 62_000_000]);
+        if let Err(e) = node.poll(now) {
+            result = Err(e);
+            break;
+        }
+    }
+    let nontrivial = stats.get("reasm.delivered") >= 1;
+    stats.add("sim.seconds", (now / 1_000_000) as u64);
+    Outcome { viol: result.err(), stats, hash, nontrivial, trace, sim_us: now, events, cfg_desc: format!("reassembly: interleaved scripted fragments -> one real node ({} reassembly slots)", slots) }
+}
+
 pub fn run(tape: &mut Tape, props: Props, thorough: bool, trace_on: bool) -> Outcome {
+    let slots = cfg_value("REASSEMBLY_BUFFER_COUNT", 1);
+    if slots >= 2 && tape.draw(2) == 1 {
+        return run_interleaved(tape, props, trace_on, slots);
+    }
     let cfg = NodeCfg::basic('V', Medium::Ip, 1500, 1, false);
     let mut node = build_node(&cfg);
     let mut s = udp::Socket::new(udp::PacketBuffer::new(vec![udp::PacketMetadata::EMPTY; 16], vec![0u8; 32768]), udp::PacketBuffer::new(vec![udp::PacketMetadata::EMPTY; 1], vec![0u8; 64]));
